@@ -142,6 +142,7 @@ NOTED = [
  ("C07", "the documented `dense` option of 8 functions of mouette.attributes is ignored when persistent=True (face_normals, face_barycenter, face_circumcenter, triangle_aspect_ratio always store sparsely; corner_angles, cotangent, edge_length, edge_middle_point always densely); the values are right, only the storage class differs, which C07 does not state; honouring the option would change the storage type of default calls. Also three docstrings name another default than the signature (border_normals dense, triangle_aspect_ratio dense, face_circumcenter name)."),
  ("C05", "DataContainer.register_array_as_attribute tests config.display_duplicate_attribute_warning with the opposite polarity of create_attribute: under the default configuration registering over an existing name warns, does not register and returns None although the docstring says the attribute is overridden (a second BFF run on one mesh keeps the old uv attribute). Outside the C05 statement; not exercised."),
  ("C08", "volume_weight_matrix / volume_weight_matrix_cells document 'format ... Defaults to dia.' while the signature default, the annotation and the sibling functions say csc (documentation only)."),
+ ("C19", "the decorators allowed_mesh_types / forbidden_mesh_types (mesh/datatypes/type_checks.py) only inspect positional arguments: a mesh passed by its documented keyword bypasses the type guard (sampling.sample_polyline(mesh=<SurfaceMesh>, n_pts=2) answers instead of raising BadMeshTypeException). Outside the C19 statement; not exercised."),
  ("C14", "sphere_fibonacci(n, radius < ~4.6e-10) returns a broken triangulation: qhull's 'QJ' joggle has an absolute floor (~6.7e-12), so the joggled hull of a tiny sphere is garbage (repair: take the hull of the unit sample). C14's unit-of-length deviation runs this generator down to 2^-30 only and says so."),
 ]
 
